@@ -56,7 +56,38 @@ NameProgs ==
                                     src |-> [k |-> "ovd", e |-> Acc("a"), b |-> e], dst |-> Dst]>>] :
         ds \in DeclSeqs("monetary"), e \in Exprs(Mon(1))}
 
-Progs == ShapeProgs \cup NameProgs
+\* ---- a declared variable in every syntactic position that can hold one (navigation, C19)
+AllDecls == <<D("account", "acc"), D("asset", "as"), D("number", "n"), D("monetary", "m"), D("portion", "p"), D("string", "s")>>
+AstE(x) == [k |-> "asset", v |-> x]
+LeafV == [k |-> "acct", e |-> Var("acc")]
+LeafL(x) == [k |-> "acct", e |-> Acc(x)]
+Send(al, sent, src, dst) == [k |-> "send", all |-> al, sent |-> sent, src |-> src, dst |-> dst]
+PosStmts ==
+  { Send(FALSE, Var("m"), LeafL("a"), Dst),
+    Send(FALSE, [k |-> "mon", asset |-> Var("as"), amt |-> Var("n")], LeafV, [k |-> "acct", e |-> Var("acc")]),
+    Send(TRUE, Var("as"), LeafV, Dst),
+    Send(FALSE, Mon(20), [k |-> "ovdu", e |-> Var("acc")], Dst),
+    Send(FALSE, Mon(20), [k |-> "ovd", e |-> Var("acc"), b |-> Var("m")], Dst),
+    Send(TRUE, AstE(A), [k |-> "ovd", e |-> Var("acc"), b |-> Var("m")], Dst),
+    Send(TRUE, AstE(A), [k |-> "seq", s |-> <<LeafL("a"), [k |-> "ovd", e |-> LeafL("b").e, b |-> Inf("+", Var("m"), Mon(1))]>>], Dst),
+    Send(FALSE, Mon(20), [k |-> "cap", c |-> Var("m"), s |-> LeafV], Dst),
+    Send(TRUE, AstE(A), [k |-> "cap", c |-> Var("m"), s |-> [k |-> "seq", s |-> <<[k |-> "cap", c |-> Var("m"), s |-> LeafV], [k |-> "ovdu", e |-> Var("acc")]>>]], Dst),
+    Send(FALSE, Mon(20), [k |-> "allot", it |-> <<[p |-> Var("p"), s |-> LeafV], [p |-> Rem, s |-> LeafL("b")]>>], Dst),
+    Send(FALSE, Mon(20), LeafL("a"), [k |-> "allot", it |-> <<[p |-> Var("p"), to |-> [k |-> "acct", e |-> Var("acc")]], [p |-> Rem, to |-> [k |-> "kept"]]>>]),
+    Send(FALSE, Mon(20), LeafL("a"), [k |-> "ord", cl |-> <<[c |-> Var("m"), to |-> [k |-> "acct", e |-> Var("acc")]], [c |-> Inf("-", Var("m"), Var("m")), to |-> [k |-> "kept"]]>>,
+                                                 rem |-> [k |-> "acct", e |-> Var("acc")]]),
+    [k |-> "save", all |-> FALSE, sent |-> Var("m"), e |-> Var("acc")],
+    [k |-> "save", all |-> TRUE, sent |-> Var("as"), e |-> Var("acc")],
+    [k |-> "call", name |-> "set_tx_meta", args |-> <<Var("s"), Var("m")>>],
+    [k |-> "call", name |-> "set_account_meta", args |-> <<Var("acc"), Var("s"), Var("p")>>] }
+OriginDecls == AllDecls \o << [type |-> "monetary", name |-> "bal", origin |-> [k |-> "call", name |-> "balance", args |-> <<Var("acc"), Var("as")>>]],
+                              [type |-> "string", name |-> "k", origin |-> [k |-> "call", name |-> "meta", args |-> <<Var("acc"), Var("s")>>]],
+                              [type |-> "monetary", name |-> "od", origin |-> [k |-> "call", name |-> "overdraft", args |-> <<Var("acc"), Var("as")>>]] >>
+PosProgs == {[vars |-> AllDecls, stmts |-> <<st>>] : st \in PosStmts}
+       \cup {[vars |-> OriginDecls, stmts |-> <<Send(FALSE, Var("bal"), LeafL("a"), Dst), [k |-> "call", name |-> "set_tx_meta", args |-> <<Var("k"), Var("od")>>]>>]}
+       \cup {[vars |-> <<>>, stmts |-> <<st>>] : st \in PosStmts}        \* the same with nothing declared: every use is unbound
+
+Progs == IF Scope = "names" THEN NameProgs \cup PosProgs ELSE ShapeProgs \cup NameProgs \cup PosProgs
 VARIABLES phase, prog
 vars == <<phase, prog>>
 Init == phase = "pick" /\ prog = [vars |-> <<>>, stmts |-> <<>>]
